@@ -2,3 +2,6 @@ From Hannibal Require Import Model.Sys.
 From Hannibal Require Chk.C13 Props.C13.
 Check Props.C13.C13_items_in_order_never_abandoned : forall tr, accepts tr = true -> Chk.C13.chk_C13 tr = true.
 Check Props.C13.C13_end_protocol : forall tr, accepts tr = true -> Chk.C03.chk_C03 tr = true.
+Check Props.C13.C13_stream_end_terminates_the_actor :
+  forall tr s s' a x, run init tr = Acc s -> step s EvQuiesce = Acc s' -> actors s a = Some x -> a_sended x = true ->
+  a_phase x = PhDone \/ a_phase x = PhCb CbFinished WExit \/ a_phase x = PhCb CbStopped WExit.
